@@ -24,10 +24,10 @@ CLAIMED = {
               "is compared with the code on every run (pot_complement, conversion loop, post-processing: canonical "
               "volume terms) and the Lean reference semantics locates sample points in the written file. The post-processing "
               "(renumbering after de-duplication, remove_empty_volumes with its queue/rounds, remove_unused_volumes) is "
-              "proved to keep the denotation of every surviving non-virtual volume and to delete only volumes containing "
-              "no point (postProcess_preserves_partial, references to deleted volumes read as ∅). Not proved: that no "
-              "reference to a deleted volume is left (full-strength statement kept as a def; C08 checks it on every "
-              "written file)."),
+              "proved to keep the denotation of every surviving non-virtual volume, to delete only volumes containing no "
+              "point and to leave no dangling reference (postProcess_preserves; the loop is shown to end with an empty "
+              "queue), for dictionaries with unique keys and no dangling reference — a hypothesis checked at run time on "
+              "every dictionary captured from the code, not derived from the compiler theorem."),
         design_ref='§8 C01'),
     'C02': dict(
         technique='Lean 4 proof (polynomial identities + sign witness over an arbitrary ordered field, per card of the mnemonic table) + model↔code correspondence per card + Lean point monitor',
@@ -185,7 +185,8 @@ CLAIMED = {
               "surface on both sides. The other clauses (ids unique, references defined, declared counts, one "
               "composition per volume, COMPOSITION count, finite numbers) are evaluated by the Lean reader on the bytes "
               "of every file produced by flat / universe / lattice / coincident-surface decks under all option sets; "
-              "closedness after post-processing is stated, not proved."),
+              "closedness after post-processing is proved (closed_after_post: no UNION/INTE operand of the final dictionary "
+              "is missing, for any dictionary with unique keys that is closed before)."),
         design_ref='§8 C08'),
     'C11': dict(
         technique='Lean 4 proof (structural/fuel induction over expression trees) + model↔code correspondence + Lean spec monitor',
